@@ -51,7 +51,7 @@ def ordered(v):
     return ["leaf", type(v).__name__, repr(v)]
 
 
-SEGMENTS = ["a", "b", "c", "x", "q", "a-b", "a_b", "b-c", "b_c", "a_b-c"]
+SEGMENTS = ["a", "b", "c", "x", "q", "a-b", "a_b", "b-c", "b_c", "a_b-c", "a_b_c", "a-b-c", "a-b_c", "_a", "a-"]
 
 
 def gen_leaf(rng):
